@@ -28,9 +28,17 @@ func genC13(rng *rand.Rand, c *Case) {
 	c.Cfg["clients"] = n
 	// serial mode (known-finding mask "serial-presence", DESIGN 5.3): presence-changing operations are
 	// issued one at a time with the system idle in between and sender goroutines run in creation order.
-	if rng.Intn(2) == 0 {
+	// a third mode masks only the two mechanisms of the known finding, not concurrency as such: sender goroutines run
+	// in creation order, and the two handlers that broadcast about ANOTHER user without serialising with that user's
+	// own handler (set-user by an administrator, idle marking) are not exercised; everything else - renames, option
+	// changes, kicks, quits - stays concurrent, and there the rosters must converge without exception
+	switch rng.Intn(4) {
+	case 0, 1:
 		c.Cfg["serial"] = 1
 		c.Cfg["fifo_senders"] = 1
+	case 2:
+		c.Cfg["fifo_senders"] = 1
+		c.Cfg["nopart2"] = 1
 	}
 	if rng.Intn(4) == 0 {
 		// history with more than 65,535 earlier connections: the id counter is about to wrap
@@ -65,6 +73,9 @@ func genC13(rng *rand.Rand, c *Case) {
 			c.Ops = append(c.Ops, Op{C: n, K: "adminflag", N: []int{rng.Intn(n), rng.Intn(2)}})
 		case k < 13:
 			c.Ops = append(c.Ops, Op{C: ci, K: "idle"})
+		case k < 14 && rng.Intn(3) == 0:
+			// the administrator disconnects a user, who may be in the middle of something
+			c.Ops = append(c.Ops, Op{C: n, K: "kick", N: []int{rng.Intn(n)}})
 		case k < 14:
 			c.Ops = append(c.Ops, Op{C: ci, K: "delay", N: []int{rng.Intn(60)}})
 		default:
@@ -205,6 +216,9 @@ func runC13(w *World) {
 	for _, op := range w.Case.Ops {
 		if (op.K == "quit" || op.K == "reset") && op.C <= n {
 			quitter[op.C] = true
+		}
+		if op.K == "kick" {
+			quitter[op.N[0]] = true
 		}
 	}
 	serial := cfg["serial"] != 0
@@ -373,10 +387,28 @@ func runC13(w *World) {
 						}
 					}
 				case "idle":
+					if cfg["nopart2"] == 1 {
+						giveTurnQuick()
+						continue
+					}
 					// no request for more than 300 simulated seconds: the server marks the user away
 					simrt.Sleep(330 * time.Second)
 					away[idx] = true
+				case "kick":
+					t := op.N[0]
+					if idx != n || !hasID[t] || gone[t] || !loggedIn[t] {
+						giveTurnQuick()
+						continue
+					}
+					gone[t] = true
+					c.DisconnectUser(uid[t], 0)
+					away[idx] = false
+					w.Probe("users_kicked_by_administrator")
 				case "adminflag":
+					if cfg["nopart2"] == 1 {
+						giveTurnQuick()
+						continue
+					}
 					t := op.N[0]
 					a := base
 					if op.N[1] == 1 {
@@ -543,5 +575,6 @@ func runC13(w *World) {
 }
 
 func init() {
-	Register(&Scenario{ID: "C13", Gen: genC13, Run: runC13, Mask: map[string]int{"serial": 1, "fifo_senders": 1}})
+	Register(&Scenario{ID: "C13", Gen: genC13, Run: runC13, Mask: map[string]int{"serial": 1, "fifo_senders": 1},
+		AltMasks: []map[string]int{{"fifo_senders": 1, "nopart2": 1}}})
 }
